@@ -119,12 +119,19 @@ class Gen:
         return self.b.add(ty='block', xs=xs)
     def stmts(self, sc, d, n):
         out=[]
+        late=[]
+        if d>0 and getattr(self,'hoisting',True) and not sc.get('ingen') and self.r.random()<0.2:
+            # a function declared at the END of this statement list: the statements before it may already call it (hoisting)
+            name=self.fresh('f'); params=[self.fresh('p') for _ in range(self.r.choice([0,1]))]
+            body=self.funcbody(sc, params, d-1)
+            sc['funcs'].append((name,len(params)))
+            late.append(self.b.add(ty='funcdecl', name=name, params=params, body=body))
         for _ in range(n):
             s=self.stmt(sc,d)
             if s is None: continue
             if isinstance(s,list): out+=s
             else: out.append(s)
-        return out
+        return out+late
     def shadow(self, sc, p=0.15):
         """an outer name to re-declare in the current scope (shadowing), or None.  Loop counters, generator objects and names
         already declared in this scope are left alone (a duplicate lexical declaration is an early error)."""
